@@ -296,7 +296,43 @@ func runC04(r *ev.Run) {
 				}
 			}
 		}
+		// every twentieth case starts from MANY documents with DENSE consecutive ids (roaring switches from array to
+		// bitmap containers at 4096 entries per 65536 block, and to run containers for consecutive ids): 5000-9000
+		// documents, a few hundred of them removed again, then the ordinary history and its batteries on top
+		if ci%20 == 11 {
+			base := uint32(1<<16)*uint32(1+rng.IntN(3)) - 2500
+			n := 5000 + rng.IntN(4000)
+			for i := 0; i < n; i++ {
+				id := base + uint32(i)
+				ids.used[id] = true
+				md := genMetadata(rng, schema)
+				cp := map[string]any{}
+				for k, v := range md {
+					cp[k] = v
+					seen[k] = true
+				}
+				if err := idx.Add(*comet.NewMetadataNodeWithID(id, md)); err != nil {
+					rep("meta.add-error", err.Error())
+					return
+				}
+				m.docs[id] = cp
+			}
+			for i := 0; i < 300; i++ {
+				id := base + uint32(rng.IntN(n))
+				if _, ok := m.docs[id]; ok {
+					idx.Remove(*comet.NewMetadataNodeWithID(id, nil))
+					delete(m.docs, id)
+					removed = append(removed, id)
+				}
+			}
+			hist = append(hist, metaOp{fmt.Sprintf("bulk: %d dense ids from %d, 300 removals", n, base), 0, nil})
+			r.Count("cases:dense-ids-bulk", 1)
+			battery()
+		}
 		nDocs := 5 + rng.IntN(56)
+		if ci%20 == 11 {
+			nDocs = 6 // (every battery walks the whole model: keep the tail of the bulk cases short)
+		}
 		for op := 0; op < nDocs+nDocs/3; op++ {
 			if rng.IntN(4) == 0 && len(m.docs) > 0 {
 				live := m.liveIDs()
